@@ -237,6 +237,7 @@ func load() *Tables {
 			if t.New == nil {
 				panic(fmt.Sprintf("verifmon harness: no constructor for %s.%s", fam, p.Go))
 			}
+			_ = t.Lib() // build the cached library view now: Lib() is called from many goroutines later
 			ts.Types = append(ts.Types, t)
 			ts.ByKey[t.Key()] = t
 			ts.ByFamily[fam] = append(ts.ByFamily[fam], t)
